@@ -9,6 +9,7 @@ package patchvalidator
 import (
 	"encoding/json"
 	"fmt"
+	"strconv"
 	"strings"
 
 	jsonpatch "github.com/evanphx/json-patch"
@@ -80,7 +81,7 @@ func validateJSONPatches(patches []byte) error {
 
 			// RFC 6902: the from location must not be a proper prefix of the path location
 			// (copying a value into itself makes the patch library build a cyclic document)
-			if strings.HasPrefix(path, from+"/") {
+			if isAncestor(from, path) {
 				return fmt.Errorf("%s: from cannot be a prefix of path", patch.JSONPatch)
 			}
 		}
@@ -91,6 +92,33 @@ func validateJSONPatches(patches []byte) error {
 	}
 
 	return nil
+}
+
+// isAncestor reports whether the location from may be a proper prefix of the location path. Reference tokens are
+// compared the way the patch library resolves them: array positions are read with strconv.Atoi, so "0", "00",
+// "+0" and "-0" are one position and a negative number counts from the end of the array; two numeric tokens are
+// therefore taken to address the same element.
+func isAncestor(from, path string) bool {
+	fromTokens, pathTokens := strings.Split(from, "/"), strings.Split(path, "/")
+	if len(fromTokens) >= len(pathTokens) {
+		return false
+	}
+
+	for i, token := range fromTokens {
+		if token == pathTokens[i] {
+			continue
+		}
+
+		if _, err := strconv.Atoi(token); err != nil {
+			return false
+		}
+
+		if _, err := strconv.Atoi(pathTokens[i]); err != nil {
+			return false
+		}
+	}
+
+	return true
 }
 
 func validateJSONPointer(pointer string) error {
